@@ -111,8 +111,14 @@ fn gen_c10(seed: u64, tier: Tier) -> Scenario {
     if sc.config.kind.is_sinc() && rng.chance(0.3) {
         ops.push(Op::SetChunk { n: gen_chunk(&mut rng, sc.config.chunk) });
     }
+    // the caller passed varying masks before the reset
+    if rng.chance(0.4) {
+        let pm = rng.uniform(0.05, 0.4);
+        sprinkle(&mut rng, &sc.config, &mut ops, pm, 0.0);
+    }
     let prefix = ops.len();
     ops.push(Op::Reset);
+    ops.push(Op::SetMask { mask: sc.config.mask.clone() });
     let nsuf = (n - npre.min(n)).clamp(3, 40);
     let mut m2 = OpMix::swarm(&mut rng, nsuf);
     m2.w_reset = 0.0;
@@ -1352,10 +1358,11 @@ fn gen_c15(seed: u64, tier: Tier) -> Scenario {
             sc.config.interp = 1;
         }
     }
-    sc.signal = match rng.below(4) {
+    sc.signal = match rng.below(5) {
         0 => Signal::Noise { seed: rng.next() },
         1 => Signal::Impulses { seed: rng.next(), period: rng.usize_in(2, 40) as u32, floor: 0.0 },
         2 => Signal::Wide { seed: rng.next() },
+        3 => gen_tiny(&mut rng),
         _ => Signal::Multisine { seed: rng.next() },
     };
     let n = ops_budget(&sc.config, tier_budget(tier) * 0.12, 3, q(tier, 24, 48), &mut rng);
@@ -1437,8 +1444,13 @@ fn eval_c15(sc: &Scenario) -> Outcome {
                         let scale = ya[k].abs().max(yb[k].abs());
                         // summation-order bound propagated through the 4-point blend, relative to the local signal scale;
                         // the per-call bound with the real products is checked by the cross-check kernel
-                        let peak = if matches!(sc.signal, Signal::Wide { .. }) { f64::INFINITY } else { 4.0 };
-                        let tol = 16.0 * len.max(16.0) * eps * peak.max(scale);
+                        let peak = match sc.signal {
+                            Signal::Wide { .. } => f64::INFINITY,
+                            Signal::Tiny { scale, .. } => 4.0 * scale,
+                            _ => 4.0,
+                        };
+                        let denorm = if cfg.f32 { f32::from_bits(1) as f64 } else { f64::from_bits(1) };
+                        let tol = 16.0 * len.max(16.0) * eps * peak.max(scale) + 16.0 * len * denorm;
                         if !(d <= tol) && !(ya[k].is_nan() && yb[k].is_nan()) {
                             let step = r.steps.iter().rev().find(|s| s.out_before <= k as u64).map(|s| s.op).unwrap_or(0);
                             out.push("C15", "stream-depends-on-kernel", step, format!("channel {} frame {}: scalar {} vs {:?} (cpu mask {}) {}, |diff| {:e} > {:e}", ch, k, ya[k], kernel, mask, yb[k], d, tol));
